@@ -370,12 +370,86 @@ def tolguard : P String := do
   let _L ← P.tok; let tol ← P.q; P.eof
   return (if decide (tol ≤ 1) then "diff OffPolicyBase setTolerance rejected a cut-off <= 1" else "ok tol-rejected")
 
+/-- priority-queue view used by the stepwise handler: indices whose priority is maximal up to an absolute 1e-13.
+    A priority is `|V'(s) - V(s)| * T`; the difference of two doubles of magnitude ~1..10 carries an absolute
+    rounding error of ~1e-15, so priorities closer than that bound may be ordered either way by the heap. -/
+def topCands (queue : List QE) : List Nat :=
+  match queue[topIdx queue]? with
+  | none => []
+  | some b => (List.range queue.length).filter (fun i => match queue[i]? with
+      | some e => decide (b.prio ≤ e.prio + 1 / 10000000000000)
+      | none => false)
+
+/-- `psw S A γ θ T R nev events…` ; event = `1 s a Q V qlen` (stepUpdateQ) or `0 Q V qlen` (batchUpdateQ, N = 1).
+    Q and V are re-synchronised with the implementation after every event; the queue (not observable beyond its
+    length) is carried by the model. -/
+def psw : P String := do
+  let S ← P.nat; let A ← P.nat; let γ ← P.q; let θ ← P.q
+  let T ← P.rep P.q (S * A * S)
+  let R ← tab S A
+  let nev ← P.nat
+  if A == 0 || S == 0 then P.fail
+  let m := mkMDP S A γ T R
+  let mut q : Rows := (List.range S).map (fun _ => (List.range A).map (fun _ => (0 : Rat)))
+  let mut vv : List Rat := (List.range S).map (fun _ => (0 : Rat))
+  -- the heap's choice among equal priorities is not observable when both backups leave the table unchanged, so the
+  -- model carries the SET of queues consistent with everything observed so far (deduplicated, capped)
+  let mut queues : List (List QE) := [[]]
+  let mut v : Verdict := { tag := "psw" }
+  let mut ill := false
+  let mut pops := 0
+  for k in [0:nev] do
+    let kind ← P.nat
+    let (s, a) ← if kind == 1 then (do let s ← P.nat; let a ← P.nat; pure (s, a)) else pure (0, 0)
+    let outQ ← tab S A
+    let outV ← P.rep P.q S
+    let qlen ← P.nat
+    if kind == 1 && !(s < S && a < A) then P.fail
+    if ill then continue
+    let candsOf (queue : List QE) : List PS :=
+      let base : PS := { q := ofRows q, v := ofVec vv, queue := queue, done := [] }
+      if kind == 1 then [psStep m θ base s a]
+      else if queue.isEmpty then [base]
+      else (topCands queue).filterMap (fun i => (queue[i]?).map (fun e => psStep m θ { base with queue := removeAt queue i } e.s e.a))
+    let cands := queues.flatMap candsOf
+    let v0 := ofVec vv
+    -- a parent priority within rounding (absolute 1e-13: |V' - V| carries up to ~1e-14) of the threshold makes the push
+    -- decision ill-conditioned
+    let near := cands.any (fun c => (List.range S).any (fun ss => (List.range A).any (fun aa =>
+        (List.range S).any (fun s0 =>
+          let d := absR (c.v s0 - v0 s0) * m.T ss aa s0
+          d != θ && d != 0 && decide (absR (d - θ) ≤ 1 / 10000000000000)))))
+    -- once the largest pending priority is below 1e-9 the table changes are at the level of the comparison
+    -- tolerance (1e-11) and the popped pair can no longer be identified from the implementation's output
+    let faint := kind == 0 && queues.any (fun queue => match queue[topIdx queue]? with | some b => decide (b.prio < tolRun) | none => false)
+    if near || faint then
+      ill := true
+      continue
+    let good := cands.filter (fun c => closeRows tolStep (toRows S A c.q) outQ && closeRows tolStep [toVec S c.v] [outV] && c.queue.length == qlen)
+    if good.isEmpty then
+      let c0 := cands.headD { q := ofRows q, v := v0, queue := [], done := [] }
+      v := v.diffIf true s!"PrioritizedSweeping event {k} kind={kind} ({s},{a}) model Q={showRows (toRows S A c0.q)} V={showRows [toVec S c0.v]} qlen={c0.queue.length} impl Q={showRows outQ} V={showRows [outV]} qlen={qlen} queue={" ".intercalate ((queues.headD []).map (fun e => s!"({e.s},{e.a},{ratStr e.prio})"))}"
+      queues := [c0.queue]
+    else
+      queues := (good.map (·.queue)).eraseDups
+      if queues.length > 24 then ill := true
+    if kind == 0 then pops := pops + 1
+    q := outQ; vv := outV
+  P.eof
+  -- from the first ill-conditioned push decision on, the unobservable queue can no longer be tracked: the verdict
+  -- covers the prefix of events before it (the deltas shrink geometrically towards θ, so this is the tail of the run)
+  if ill then v := { v with tag := v.tag ++ " prefix-only" }
+  if nev == 0 then v := { v with tag := v.tag ++ " trivial" }
+  if pops > 0 then v := { v with tag := v.tag ++ " pops" }
+  return v.render
+
 def handle (toks : List String) : String :=
   let r := match toks with
     | "tolguard" :: rest => P.run tolguard rest
     | "td" :: rest => P.run td rest
     | "tr" :: rest => P.run tr rest
     | "ps" :: rest => P.run ps rest
+    | "psw" :: rest => P.run psw rest
     | "dynab" :: rest => P.run dynab rest
     | _ => none
   r.getD "bad-op"
